@@ -143,6 +143,13 @@ VF_HARNESS(elements_movement) {   // the element designated after each kind of m
   vf_assert(&it[k] - g_mem == canonical_addr(s, p + k), "it[n] is *(it+n)");
   if(p + 1 < ne) { auto a = it; ++a; vf_assert(&*a - g_mem == canonical_addr(s, p + 1), "dereference after ++"); --a; vf_assert(a == it && &*a - g_mem == canonical_addr(s, p), "-- undoes ++"); }
   if(p > 0) { auto a = it; --a; vf_assert(&*a - g_mem == canonical_addr(s, p - 1), "dereference after --"); ++a; vf_assert(a == it && &*a - g_mem == canonical_addr(s, p), "++ undoes --"); }
+  if(p == ne - 1) {   // reach end() by ++, then move back: the position, not a wrapped index tuple, must drive the movement
+    auto a = it; ++a; vf_assert(a == e.end(), "++ from the last element reaches end()");
+    L m = vf_nondet_long(); vf_assume(1 <= m && m <= ne);
+    auto b = a; b -= m; vf_assert(&*b - g_mem == canonical_addr(s, ne - m), "dereference after ++ to end() then -= m");
+    vf_assert(&*(a - m) - g_mem == canonical_addr(s, ne - m) && &a[-m] - g_mem == canonical_addr(s, ne - m), "end() reached by ++: (it - m) and it[-m] designate the (size-m)-th element");
+    auto c = a; --c; vf_assert(&*c - g_mem == canonical_addr(s, ne - 1), "-- from end() reached by ++ designates the last element");
+  }
   { auto a = e.begin(); a = it; vf_assert(a == it && &*a - g_mem == canonical_addr(s, p), "assigned iterator designates the same element"); auto b(it); vf_assert(b == it && &*b - g_mem == canonical_addr(s, p), "copied iterator designates the same element"); }
   { L q = vf_nondet_long(); vf_assume(0 <= q && q <= ne); auto jt = e.begin() + q; vf_assert(((it < jt) != 0) == (p < q) && (it == jt) == (p == q) && (it != jt) == (p != q), "order and equality follow positions"); }
   { typename decltype(e)::const_iterator cit = it; vf_assert(&*cit - g_mem == canonical_addr(s, p), "const_iterator designates the same element"); }
